@@ -35,6 +35,8 @@ KINDS = [
     ('docv2', 'GET', '/doc?v=2&id={i}', b''),
     ('go', 'GET', '/go?id={i}', b''),
     ('cart', 'GET', '/cart?add={nm}{i}&id={i}', b''),
+    ('keep', 'GET', '/keep?id={i}', b''),
+    ('logout', 'GET', '/logout?id={i}', b''),
     ('boom', 'GET', '/boom?id={i}', b''),
     ('redir', 'GET', '/dir?id={i}', b''),
     ('dir', 'GET', '/dir/?id={i}', b''),
@@ -93,6 +95,9 @@ def summarise(ex, env):
         kl = k.lower()
         if kl in ('location', 'content-type', 'content-length') or kl.startswith('x-sim-'):
             hdrs[kl] = v
+        elif kl == 'set-cookie':
+            # does the saved cookie carry an expiry date?  (the value itself is signed per request)
+            hdrs['set-cookie-expires'] = ('expires=' in v.lower())
         elif kl == 'allow':
             hdrs[kl] = ','.join(sorted(x.strip() for x in v.split(',')))
     ds = env['sim.ds']
@@ -149,6 +154,10 @@ def predict(cfg, r):
         return (405, None, 'GET,HEAD,POST,PUT', None)
     if k == 'go':
         return (302, None, None, 'http://sim.test/hi/there')
+    if k == 'keep':
+        return (200, 'keep|%d' % i, None, None, {'set-cookie-expires': False})
+    if k == 'logout':
+        return (200, 'logout|%d' % i, None, None, {'set-cookie-expires': True})
     if k == 'cart':
         add = r['target'].split('add=')[1].split('&')[0]
         return (200, 'cart|apple,%s|%d' % (add, i), None, None)
@@ -555,7 +564,8 @@ class C12(Check):
                 stamp = s['headers'].get('x-sim-tok')
                 if (s['code'] != p[0] or (p[1] is not None and s['body'] != p[1]) or (p[2] is not None and s['headers'].get('allow') != p[2])
                         or (p[3] is not None and s['headers'].get('location') != p[3])
-                        or (stamp is not None and stamp != 'tok-%d' % r['id'])):
+                        or (stamp is not None and stamp != 'tok-%d' % r['id'])
+                        or (len(p) > 4 and any(s['headers'].get(hk) != hv for hk, hv in p[4].items()))):
                     res.violate('C12/%s/differs-from-source-prediction:%s' % (r['kind'], what),
                                 '%s (%s %s) served %s: status %s body %r Allow %r Location %r; the application source says %r\n history: %s'
                                 % (name, r['method'], r['target'], what, s['code'], s['body'][:80], s['headers'].get('allow'), s['headers'].get('location'), p,
